@@ -9,7 +9,7 @@
 From Coq Require Import String Ascii List NArith Bool.
 From Tink Require Import Bytes UntrustedConsts Untrusted UntrustedSpec UntrustedProofs.
 From Coq Require Import ZArith.
-From Tink Require Import UntrustedSites UntrustedSitesProofs UntrustedPanicSites UntrustedPrefix5Proofs.
+From Tink Require Import UntrustedSites UntrustedSitesProofs UntrustedPanicSites UntrustedPanicSitesTable UntrustedPrefix5Proofs.
 Import ListNotations.
 Open Scope list_scope.
 Open Scope N_scope.
@@ -236,6 +236,25 @@ Proof.
 Qed.
 Print Assumptions C14_mismatched_parts_rejected.
 
+(* ... and the two ML-DSA private key types: the 32-byte seed generates the
+   public key the message carries (mldsa_pub: the library's own key generation,
+   an arbitrary function here, trusted at run time for that one function). *)
+Theorem C14_mismatched_parts_rejected_mldsa :
+  forall (L : stdlib) kd prefix idreq d,
+    let fs := fields_or_nil (kd_value kd) in
+    (parse_mldsa_priv L kd prefix idreq = Ok d ->
+       blen (get_len 2 fs) = 32
+       /\ mldsa_pub L (get_u32 1 (get_sub 3 (get_sub 3 fs))) (get_len 2 fs) = get_len 2 (get_sub 3 fs)
+       /\ kd_mat kd = km_private /\ d = PMlDsaPriv)
+    /\ (parse_jwt_mldsa_priv L kd prefix idreq = Ok d ->
+       blen (get_len 2 fs) = 32
+       /\ mldsa_pub L (jwt_mldsa_instance (get_u32 2 (get_sub 3 fs))) (get_len 2 fs) = get_len 3 (get_sub 3 fs)
+       /\ kd_mat kd = km_private /\ d = PJwtMlDsaPriv).
+Proof.
+  intros L kd prefix idreq d fs. split; [exact (mldsa_priv_consistent L kd prefix idreq d) | exact (jwt_mldsa_priv_consistent L kd prefix idreq d)].
+Qed.
+Print Assumptions C14_mismatched_parts_rejected_mldsa.
+
 (* Regression for the defect fixed in /repo (commit 067e856): the RSA public
    key with exponent field 2^64 + 65537, which int(exponent.Int64()) used to
    read as 65537, is not strong and is now refused by the parser. *)
@@ -257,7 +276,7 @@ Print Assumptions C14_decoder_fuel_adequate.
 (* a standard library that refuses everything (the example needs none of it) *)
 Definition std0 : stdlib :=
   mkStd (fun _ _ => false) (fun _ _ => None) (fun _ => []) (fun _ _ => None) (fun _ _ => [])
-        (fun _ _ _ _ _ => None) (fun _ _ _ _ _ _ _ _ => false).
+        (fun _ _ _ _ _ => None) (fun _ _ _ _ _ _ _ _ => false) (fun _ _ => []).
 
 (* Non-vacuity: a two-key keyset (a 16-byte AES-GCM key, TINK, id 5, primary;
    an unknown key type, RAW, id 9, disabled), serialized by hand, is read into
@@ -276,7 +295,7 @@ Definition ex_keyset : bytes :=
    JWT-HMAC HS256 key of 32 bytes with prefix TINK is usable, of 31 bytes not. *)
 Definition std1 : stdlib :=
   mkStd (fun _ _ => false) (fun _ _ => None) (fun seed => seed) (fun _ _ => None) (fun _ _ => [])
-        (fun _ _ _ _ _ => None) (fun _ _ _ _ _ _ _ _ => false).
+        (fun _ _ _ _ _ => None) (fun _ _ _ _ _ _ _ _ => false) (fun _ _ => []).
 Definition ex_seed : bytes := repeat 9 32%nat.
 Definition ex_ed_priv (pub : bytes) : keydata :=
   mkKD u_ed25519_priv ([18; 32] ++ ex_seed ++ [26; 34; 18; 32] ++ pub) km_private.
@@ -322,23 +341,34 @@ Qed.
 
 (* ======================================================================== *)
 (* STRETCH ROUND: the panic sites beyond the checked slices of the model.   *)
-(* model/UntrustedPanicSites.v is the hand-made table of EVERY expression   *)
+(* proofs/UntrustedPanicSitesTable.v is a HAND-MADE table of the expressions *)
 (* on the untrusted-keyset path that Go or its standard library can make    *)
-(* panic (67 sites: file, function, expression, kind, guard, coverage);     *)
+(* panic, as far as a reading of the files found them (71 sites: file,      *)
+(* function, expression, kind, guard, coverage).  A site the reading missed *)
+(* is not in it: Coq does not check the completeness of the LIST.  What it  *)
+(* checks is the coverage column: a CModel / CLemma entry carries the       *)
+(* proposition that covers the site and its proof term, so the table        *)
+(* type-checks only if that theorem exists and states what the entry says.  *)
 (* model/UntrustedSites.v transcribes, with Go's machine integers, the      *)
 (* sites the model did not carry as a checked operation of its own.         *)
 (* ======================================================================== *)
 
-(* the table: every site has a guard; one site (the panic(err) of
-   Handle.KeysetInfo) is decided by the harness alone, six lie inside the
-   standard library (the trusted behaviour is named in the table) *)
-Theorem C14_every_listed_panic_site_is_guarded :
-  forallb guarded panic_sites = true /\
-  length panic_sites = 67%nat /\
-  length (filter is_harness_only panic_sites) = 1%nat /\
-  length (filter is_stdlib panic_sites) = 6%nat.
-Proof. split; [exact every_site_has_a_guard|exact coverage_counts]. Qed.
-Print Assumptions C14_every_listed_panic_site_is_guarded.
+(* how the 71 listed sites are covered: 31 by a theorem about the function of
+   model/Untrusted.v that contains the site as a checked operation, 15 by a
+   lemma about the as-written transcription of the site; 17 are only ARGUED in
+   prose (constant bounds, static types, values tink-go built itself), 6 lie
+   inside the standard library (trusted behaviour named), 2 are decided by the
+   harness alone (the panic(err) of Handle.KeysetInfo; the parameters parsers
+   reached through an ECIES DEM template) - these 25 carry no theorem *)
+Theorem C14_panic_site_table_coverage :
+  (length panic_sites = 71)%nat /\
+  (UntrustedPanicSites.count by_model_theorem panic_sites = 31)%nat /\
+  (UntrustedPanicSites.count by_site_lemma panic_sites = 15)%nat /\
+  (UntrustedPanicSites.count argued_only panic_sites = 17)%nat /\
+  (UntrustedPanicSites.count is_stdlib panic_sites = 6)%nat /\
+  (UntrustedPanicSites.count is_harness_only panic_sites = 2)%nat.
+Proof. exact panic_site_coverage_counts. Qed.
+Print Assumptions C14_panic_site_table_coverage.
 
 (* internal/ec BigIntBytesToFixedSizeBuffer AS WRITTEN (make with a computed
    size, the index loop over the leading bytes, the final slice): never panics
